@@ -3,7 +3,7 @@
    The model (Model/C18_PDE.v) is over exact rationals; the linear solver (any function of the call number, the
    operator and the right-hand side, returning the solution alone or a tuple with extra values), scipy's interpolation
    routines, the observation map and the PDE form (any function of parameter and time) are universally quantified. *)
-From CV Require Import Base.Tac Base.LinAlg Base.Cmp Base.QcLin Model.C18_PDE Proofs.C18_Alg Proofs.C18_PDE.
+From CV Require Import Base.Tac Base.LinAlg Base.Cmp Base.QcLin Model.C18_PDE Proofs.C18_Alg Proofs.C18_PDE Proofs.C18_Linear.
 From Coq Require Import QArith Qcanon.
 Local Open Scope Qc_scope.
 
@@ -73,6 +73,19 @@ Theorem C18_backward_euler :
        qvsub uk1 (qvscale dt (qmatvec (fA P form p tk1) uk1)) = qvadd uk (qvscale dt (fb P form p tk1))).
 Proof. exact backward_euler. Qed.
 Print Assumptions C18_backward_euler.
+
+(* corollary: a solver that is exact on every system it is handed => every level satisfies the implicit recurrence *)
+Theorem C18_backward_euler_exact_solver :
+  forall (P I : Type) (solver : nat -> qm -> qv -> sret I) (form : P -> Qc -> qm * qv * qv)
+         (Q : quirks) (p : P) (times : qv) (levels : list qv) (info : option (list I)),
+  (forall k M r, qmatvec M (sret_sol (solver k M r)) = r) ->
+  td_solve P I solver form Q MBwd (Some p) times = Ok (levels, info) ->
+  forall k, (S k < length times)%nat ->
+    let dt := (nth (S k) times 0 - nth k times 0)%Qc in
+    qvsub (nth (S k) levels []) (qvscale dt (qmatvec (fA P form p (nth (S k) times 0)) (nth (S k) levels [])))
+      = qvadd (nth k levels []) (qvscale dt (fb P form p (nth (S k) times 0))).
+Proof. exact backward_euler_exact_solver. Qed.
+Print Assumptions C18_backward_euler_exact_solver.
 
 (* the assembled implicit operator applied to x is x - dt A x; the right-hand side is u + dt b *)
 Theorem C18_backward_system :
@@ -201,6 +214,12 @@ Theorem C18_observe_coinciding_refuted :
 Proof. exact observe_coinciding_refuted. Qed.
 Print Assumptions C18_observe_coinciding_refuted.
 
+(* a single observation time on the interpolation route: the (n_obs, 1) array becomes the vector of length n_obs *)
+Theorem C18_squeeze_single_time :
+  forall v : qv, (2 <= length v)%nat -> squeeze (A2 (map (fun x => [x]) v)) = A1 v.
+Proof. exact squeeze_single_time. Qed.
+Print Assumptions C18_squeeze_single_time.
+
 (* steady state: equal grids => the solution itself; otherwise the 1-d interpolation; then the observation map *)
 Theorem C18_steady_observe :
   forall (obsmap : option (arr -> res arr)) (interp1 : qv -> qv -> qv -> res qv) (G : grids) (sol : qv),
@@ -268,6 +287,36 @@ Theorem C18_gradient_is_vjp :
   qdot (qmattvec npar J d) v = qdot d (qmatvec J v).
 Proof. exact gradient_is_vjp. Qed.
 Print Assumptions C18_gradient_is_vjp.
+
+(* the stored forward-Euler levels are THE solution of the recurrence from the initial condition *)
+Theorem C18_forward_euler_unique :
+  forall (P I : Type) (solver : nat -> qm -> qv -> sret I) (form : P -> Qc -> qm * qv * qv) (Q : quirks)
+         (p : P) (times : qv) (levels : list qv) (info : option (list I)) (levels' : list qv),
+  td_solve P I solver form Q MFwd (Some p) times = Ok (levels, info) ->
+  length levels' = length times ->
+  nth 0 levels' [] = fic P form p (nth 0 times 0) ->
+  (forall k, (S k < length times)%nat ->
+     nth (S k) levels' [] = euler_fwd (fA P form p (nth k times 0)) (fb P form p (nth k times 0)) (nth k levels' [])
+                                      (nth (S k) times 0 - nth k times 0)) ->
+  levels' = levels.
+Proof. exact forward_euler_unique. Qed.
+Print Assumptions C18_forward_euler_unique.
+
+(* tier 2: with a parameter-independent operator the forward-Euler solution is linear in the data: the difference of the
+   solutions for two parameters is the solution for the differences of source and initial condition (level by level) *)
+Theorem C18_forward_euler_linear_in_data :
+  forall (P I : Type) (solver : nat -> qm -> qv -> sret I) (form : P -> Qc -> qm * qv * qv)
+         (Pd : Type) (formd : Pd -> Qc -> qm * qv * qv) (Q : quirks) (p1 p2 : P) (pd : Pd) (times : qv)
+         (l1 l2 : list qv) (i1 i2 : option (list I)),
+  (forall t, fA P form p1 t = fA P form p2 t /\ fA Pd formd pd t = fA P form p1 t /\
+             fb Pd formd pd t = qvsub (fb P form p1 t) (fb P form p2 t) /\
+             fic Pd formd pd t = qvsub (fic P form p1 t) (fic P form p2 t)) ->
+  length (fic P form p1 (nth 0 times 0)) = length (fic P form p2 (nth 0 times 0)) ->
+  td_solve P I solver form Q MFwd (Some p1) times = Ok (l1, i1) ->
+  td_solve P I solver form Q MFwd (Some p2) times = Ok (l2, i2) ->
+  td_solve Pd I solver formd Q MFwd (Some pd) times = Ok (map2 qvsub l1 l2, None).
+Proof. exact forward_euler_difference. Qed.
+Print Assumptions C18_forward_euler_linear_in_data.
 
 (* non-vacuity: a concrete 2-node problem with time-dependent source on a non-uniform grid; forward Euler levels
    computed; backward Euler with an exact 2x2 solver returning (x, call number): the solver law holds on every call *)
